@@ -662,3 +662,52 @@ func c11r6(rc *core.RC) {
 		rc.Unknown("decoder/destinations", token.NoPos, "found only %d destination sites in the decoder package", n)
 	}
 }
+
+// ---- C11.R7 Init resets the per-run state of a pooled encoder context unconditionally ----
+
+// A pooled RuntimeContext comes back from whatever the last call left in it. KeepRefs, SeenPtr and BaseIndent are
+// per-run state; a run that ends with an error inside a recursive or interface frame leaves its entries on the
+// SeenPtr stack. Init therefore empties each of them on every call, as a plain statement of its body: a reset that
+// is skipped "because the stack is empty anyway when a program has run" lets the cycle check of a later deep value
+// find the addresses of an earlier, failed one.
+func c11r7(rc *core.RC) {
+	p := rc.P
+	fd := p.Func("encoder", "RuntimeContext.Init")
+	if fd == nil || fd.Body == nil {
+		rc.Unknown("encoder.RuntimeContext.Init", token.NoPos, "function not found")
+		return
+	}
+	info := p.Info(fd)
+	fn := p.FuncName(fd)
+	rc.Touch(fn)
+	for _, field := range []string{"KeepRefs", "SeenPtr", "BaseIndent"} {
+		key := fn + "/" + field + " reset-unconditionally"
+		found := false
+		for _, st := range fd.Body.List {
+			as, ok := st.(*ast.AssignStmt)
+			if !ok || len(as.Lhs) != 1 || len(as.Rhs) != 1 || as.Tok != token.ASSIGN {
+				continue
+			}
+			f := core.FieldOf(info, as.Lhs[0])
+			if f == nil || f.Name() != field {
+				continue
+			}
+			r := core.Unparen(as.Rhs[0])
+			switch v := r.(type) {
+			case *ast.SliceExpr:
+				if hv, isC := core.ConstInt(info, v.High); isC && hv == 0 && v.Low == nil {
+					found = true
+				}
+			case *ast.Ident:
+				if v.Name == "nil" {
+					found = true
+				}
+			case *ast.BasicLit:
+				if c, isC := core.ConstInt(info, v); isC && c == 0 {
+					found = true
+				}
+			}
+		}
+		rc.Check(found, key, fd.Pos(), "Init empties %s with a statement of its own body (x[:0], nil or 0), whatever the context brings along from its last run", field)
+	}
+}
